@@ -539,7 +539,16 @@ inline void TotalOrderSort(py::list& list) {  // NOLINT[runtime/references]
 
 inline Py_ALWAYS_INLINE py::list DictKeys(const py::dict& dict) {
     const scoped_critical_section cs{dict};
-    return py::reinterpret_steal<py::list>(PyDict_Keys(dict.ptr()));
+    if (PyDict_CheckExact(dict.ptr())) [[likely]] {
+        return py::reinterpret_steal<py::list>(PyDict_Keys(dict.ptr()));
+    }
+    // NOTE: `PyDict_Keys()` reads the underlying dict storage. A subclass may define its own
+    // iteration order (e.g., `OrderedDict.move_to_end()` only relinks the `OrderedDict`'s list).
+    PyObject* const keys = PySequence_List(dict.ptr());
+    if (keys == nullptr) [[unlikely]] {
+        throw py::error_already_set();
+    }
+    return py::reinterpret_steal<py::list>(keys);
 }
 
 inline py::list SortedDictKeys(const py::dict& dict) {
